@@ -146,6 +146,16 @@ def check(run, ctx):
     from ..linters import Linters
     from . import shared
 
+    T8 = run.rule("T8", "the three lines-of-code counters are siblings: each counts only non-blank, non-comment lines", floor=3,
+                  decides="`lines of code` means the same in Python, TypeScript and Rust")
+    for rec in shared.loc_counters(ctx):
+        (run.ok(T8, rec["func"], rec["detail"]) if rec["ok"] else run.finding(T8, rec["func"], "loc-definition", f"{rec['func']}: {rec['detail']} (the sibling analyzers count code lines only)", rec["loc"]))
+    T9 = run.rule("T9", "every class is found: the Python class finder walks the whole tree (classes nested in functions, methods, if/try blocks included)", floor=1)
+    for rec in shared.whole_tree_finders(ctx):
+        if ".srp." not in rec["func"]:
+            continue
+        (run.ok(T9, rec["func"], rec["detail"]) if rec["ok"] else run.finding(T9, rec["func"], "partial-descent", f"{rec['func']}: {rec['detail']}", rec["loc"]))
+
     T7 = run.rule("T7", "SRPRule resolves its (language-dependent) configuration for every file: _load_config does not memoise on the instance", floor=1,
                   decides="language-specific threshold overrides apply only to files of that language")
     for rec in shared.config_memoisation(ctx, Linters(ctx)):
